@@ -264,6 +264,21 @@ def gen_rm_payload(f, base_field, rnd):
     return ['Modify', cs]
 
 
+def hash_ordered(sh):
+    return any(f['k'] in ('unord', 'map', 'recmap') and not f['skip'] for f in sh['fields'])
+
+
+def canon_wire(sh, es):
+    """decoded entries with the lists inside hash-ordered payloads sorted"""
+    out = []
+    for j, p in es:
+        f = sh['fields'][int(j)]
+        if f['k'] in ('unord', 'map', 'recmap') and isinstance(p, list) and p and p[0] in ('Replace', 'Modify'):
+            p = [p[0], sorted(p[1], key=sx.show)]
+        out.append(sx.show([j, p]))
+    return out
+
+
 def tag_offsets(fmt, sh, es):
     """byte offsets of discriminants in an encoded entry list: the entry's, and those of the FIRST entry's payload"""
     if not es:
@@ -279,6 +294,9 @@ def tag_offsets(fmt, sh, es):
             offs.append(('bad-change-discriminant', 8 + dl + tl + 8, tl))
     elif f['k'] == 'ordered' and p:
         offs.append(('bad-change-discriminant', 8 + dl + 8, tl))
+    elif (flat_field(f) and f.get('rty', 'u32') == 'Option<u32>') or (f['k'] == 'ropt' and (p == 'none' or p[0] == 'some')):
+        # the tag byte of an Option: bincode accepts 0 / 1 only, nanoserde takes every byte other than 1 as None
+        offs.append(('odd-option-tag', 8 + dl, 1))
     return offs
 
 
@@ -314,11 +332,13 @@ def run(res, shs, binp, tier, seed):
             ent['fmts'][fmt] = (ob, rb, len(dl))
             dl.append(sx.show(['sdec', fmt, sk, ks, ob]))
             dl.append(sx.show(['sdec', fmt, sk, ks, rb]))
+            dl.append(sx.show(['dwire', fmt, shapes.lean_ty(sh), sk, ks, a, b]))
             if is_flat(sh):
                 es = [[j, pv(b[j + 1])] for j, f in enumerate(sh['fields']) if not f['skip'] and sx.show(a[j + 1]) != sx.show(b[j + 1])]
                 dl.append(sx.show(['senc', fmt, sk, ks, es]))
         plan.append(ent)
     rc, mo = core.run_driver(dl)
+    later = []     # shapes with hash-ordered payloads: compared after decoding, up to the order inside change lists
     for (i, sh, a, b), row, ent in zip(reqs, rows, plan):
         res.corr['evaluations'] += 1
         r = sx.parse(row[1])
@@ -349,14 +369,37 @@ def run(res, shs, binp, tier, seed):
                 if mem == 'panic' or shapes.canon_value(sh, want) != shapes.canon_value(sh, mem):
                     res.corr['model_disagreements'].append({'request': row[0][:800], 'what': f'{fmt}: the entries the model decodes from the real {form} bytes do not mean what the real apply did',
                                                             'impl': sx.show(mem)[:400], 'model': sx.show(want)[:400], 'entries': sx.show(es)[:400]})
+            # the DERIVE model's own diff of (a, b), carried through Derive.toWire and the wire encoder
+            dw = sx.parse(mo[k + 2])
+            if dw[0] != 'ok':
+                res.corr['model_disagreements'].append({'request': row[0][:600], 'what': f'{fmt}: the derive model\'s diff of a tie shape is not expressible in the wire model ({dw[0]})', 'model': mo[k + 2][:300]})
+            else:
+                mob = [int(x) for x in sx.field(dw, 'owned')[0]]; mrb = [int(x) for x in sx.field(dw, 'ref')[0]]
+                if not hash_ordered(sh):
+                    if mob != ob or mrb != rb:
+                        res.corr['model_disagreements'].append({'request': row[0][:600], 'what': f'{fmt}: the bytes of the derive model\'s diff (toWire + wire encoder) differ from the real encoder\'s bytes',
+                                                                'impl': str(ob)[:400], 'model': str(mob)[:400]})
+                else:
+                    sk2, ks2 = skips_kinds(sh)
+                    later.append((row[0], fmt, sh, sk2, ks2, mob, ob))
             if is_flat(sh):
-                me = sx.parse(mo[k + 2])
+                me = sx.parse(mo[k + 3])
                 mb = [int(x) for x in sx.field(me, 'owned')[0]] if me[0] == 'ok' else None
                 if mb != ob:
                     res.corr['model_disagreements'].append({'request': row[0][:600], 'what': f'{fmt}: bytes of the derived struct diff differ from the framing model (entry = rank among the unskipped fields + payload)',
                                                             'impl': str(ob)[:400], 'model': str(mb)[:400]})
                 if me[0] == 'ok' and sx.field(me, 'ref')[0] != sx.field(me, 'owned')[0]:
                     res.corr['model_disagreements'].append({'request': row[0][:300], 'what': 'the model encodes the borrowed form differently'})
+    dl2 = []
+    for (req, fmt, sh, sk, ks, mob, ob) in later:
+        dl2.append(sx.show(['sdec', fmt, sk, ks, mob])); dl2.append(sx.show(['sdec', fmt, sk, ks, ob]))
+    rc, mo3 = core.run_driver(dl2)
+    for q, (req, fmt, sh, sk, ks, mob, ob) in enumerate(later):
+        m1 = sx.parse(mo3[2 * q]); m2 = sx.parse(mo3[2 * q + 1])
+        res.corr['evaluations'] += 1
+        if m1[0] != 'ok' or m2[0] != 'ok' or canon_wire(sh, m1[1]) != canon_wire(sh, m2[1]):
+            res.corr['model_disagreements'].append({'request': req[:600], 'what': f'{fmt}: the derive model\'s diff (toWire + wire encoder) and the real encoder\'s bytes decode to different entry lists (compared up to the order inside hash-ordered change lists)',
+                                                    'impl': mo3[2 * q + 1][:400], 'model': mo3[2 * q][:400]})
     # ---------------- stream B
     nv = 40 if tier == 'quick' else 800
     items = []
